@@ -543,4 +543,46 @@ theorem lookupP_toP (t : Node) (p : List Nib) : lookupP (toP t) (p.map nibChar) 
       by_cases h0 : cm.length = 0 <;> simp [h0, hne, ofOpt]
 
 
+
+/-! ### which error value `iterate` returns -/
+
+/-- the first node that is not an extension, going down from the root, is missing: the root itself is absent, or it is
+    reached from the root through extensions only -/
+inductive SpineMissing : PTree → Prop where
+  | here (k : Bytes) : SpineMissing (.missing k)
+  | ext (p : Bytes) (c : PTree) : SpineMissing c → SpineMissing (.ext p c)
+
+theorem spineMissing_occurs (t : PTree) (h : SpineMissing t) : ∃ k, Occurs k t := by
+  induction h with
+  | here k => exact ⟨k, .here⟩
+  | ext p c _ ih => obtain ⟨k, hk⟩ := ih; exact ⟨k, .ext p c hk⟩
+
+theorem iterErr_values (m : IterErr) (t : PTree) : iterErr m t = .none ∨ iterErr m t = m ∨ iterErr m t = .iterChild := by
+  induction t with
+  | empty => simp [iterErr]
+  | missing k => simp [iterErr]
+  | leaf p v => simp [iterErr]
+  | full ch v ih => simp only [iterErr]; split <;> simp
+  | ext p c ih => simpa [iterErr] using ih
+
+theorem iterErr_spine (m : IterErr) (hm : m ≠ .none) (hm2 : m ≠ .iterChild) (t : PTree) :
+    iterErr m t = m ↔ SpineMissing t := by
+  induction t with
+  | empty => simp [iterErr]; exact ⟨fun h => absurd h.symm hm, fun h => by cases h⟩
+  | missing k => simp [iterErr]; exact .here k
+  | leaf p v => simp [iterErr]; exact ⟨fun h => absurd h.symm hm, fun h => by cases h⟩
+  | full ch v ih =>
+    simp only [iterErr]
+    constructor
+    · intro h
+      split at h
+      · exact absurd h.symm hm2
+      · exact absurd h.symm hm
+    · intro h; cases h
+  | ext p c ih =>
+    simp only [iterErr]
+    rw [ih]
+    exact ⟨fun h => .ext p c h, fun h => by cases h with | ext _ _ h => exact h⟩
+
+
 end Verif.Partial
